@@ -57,7 +57,10 @@ class Ctx:
                 f, info = factsmod.extract(config)
             except factsmod.Inconclusive as e:
                 raise Inconclusive(str(e))
-            from . import inline, fieldnames, fnnames, adtnames
+            from . import inline, fieldnames, fnnames, adtnames, assertelide
+            el = assertelide.elide(f)
+            if el:
+                info = dict(info, elided_pure_const_regions=el)
             aren = adtnames.canonicalise(f)
             if aren:
                 info = dict(info, adt_renames=aren)
